@@ -3,6 +3,7 @@ package c10
 
 import (
 	"fmt"
+	"google.golang.org/protobuf/verifmc/checks/c03"
 
 	"google.golang.org/protobuf/encoding/protojson"
 	"google.golang.org/protobuf/encoding/prototext"
@@ -203,7 +204,7 @@ func (k *checker) bytes(in []byte, origin string, want bool, knownWant bool) {
 }
 
 func run(c *core.Ctx) {
-	c.Rule = "for every required-bearing corpus type (proto2, editions LEGACY_REQUIRED; open/hybrid/opaque; lazy; required inside optional/repeated/map/oneof/group/extension): all messages with <=k slots over a slot alphabet that contains, besides every single field value, FILL slots that set all required fields of a (sub)message, and all decodable sequences of <=n wire records; an independent recursive required-field walk gives the expected verdict, which CheckInitialized, Marshal, binary Unmarshal (lazy and eager), protojson and prototext Marshal/Unmarshal without AllowPartial must reproduce exactly, while every AllowPartial variant succeeds; the fast path must never flag a partial message as initialized. distinct = distinct (type, slot list / record sequence). Histories: on ONE reused message whose field is a lazily decoded submessage with required fields, every sequence of <=d operations (d=4 quick, 5 thorough) from Unmarshal / Unmarshal{AllowPartial} / Unmarshal{Merge} / Unmarshal{Merge,AllowPartial} of {no bytes, a complete child, a partial child}, Clear, Get (expansion), Reset, Size: after each, CheckInitialized and strict Marshal must give the verdict of an independent required-field walk over the current content (reference = dynamicpb decode of the bytes that make up the content); every history is its own state"
+	c.Rule = "for every required-bearing corpus type (proto2, editions LEGACY_REQUIRED; open/hybrid/opaque; lazy; required inside optional/repeated/map/oneof/group/extension): all messages with <=k slots over a slot alphabet that contains, besides every single field value, FILL slots that set all required fields of a (sub)message, and all decodable sequences of <=n wire records; an independent recursive required-field walk gives the expected verdict, which CheckInitialized, Marshal, binary Unmarshal (lazy and eager), protojson and prototext Marshal/Unmarshal without AllowPartial must reproduce exactly, while every AllowPartial variant succeeds; the fast path must never flag a partial message as initialized. distinct = distinct (type, slot list / record sequence). Histories: on ONE reused message whose field is a lazily decoded submessage with required fields, every sequence of <=d operations (d=4 quick, 5 thorough) from Unmarshal / Unmarshal{AllowPartial} / Unmarshal{Merge} / Unmarshal{Merge,AllowPartial} of {no bytes, a complete child, a partial child}, Clear, Get (expansion), Reset, Size: after each, CheckInitialized and strict Marshal must give the verdict of an independent required-field walk over the current content (reference = dynamicpb decode of the bytes that make up the content); every history is its own state. Content that exists only through the Go API of open-struct messages (a nil message as map value, list element or oneof payload, in every such field of every registered type) gets the same verdict check"
 	c.Exhaustive = true
 	var planOut []map[string]any
 	ps := plans(c)
@@ -283,5 +284,6 @@ func run(c *core.Ctx) {
 		histOut = append(histOut, lazyHistories(c, name, core.Pick(c, 4, 5)))
 	}
 	c.Bounds["required_in_lazy_histories"] = histOut
+	c03.NilCompositesInitialized(c)
 	c.Assume("the expected verdict is an independent recursive walk: every required field of every message reachable through populated fields, list elements, map values and extensions is populated")
 }
